@@ -362,14 +362,14 @@ func scenarios(c *hl.Ctx, w *recWriter) []mc.Scenario {
 	if c.Thorough() {
 		b3, b4 = b3t, b4t
 	}
-	return []mc.Scenario{
+	return append([]mc.Scenario{
 		scenario("2g-with-with", []string{"W", "W"}, unb, w),
 		scenario("2g-with-alias", []string{"WL", "AN"}, unb, w),
 		scenario("2g-two-each", []string{"WW", "WLA"}, unb, w),
 		scenario("3g-one-each", []string{"W", "A", "WO"}, []int{0, 1, 2, -1}, w),
 		scenario("3g-two-each", []string{"WW", "AL", "WNW"}, b3, w),
 		scenario("4g-one-each", []string{"W", "W", "A", "WL"}, b4, w),
-	}
+	}, histScenarios(w)...)
 }
 
 func run(c *hl.Ctx) {
@@ -377,8 +377,9 @@ func run(c *hl.Ctx) {
 	os.Stdout = devnull
 	w := &recWriter{}
 	logger.Switch(closerWriter{w})
-	c.Rule("E1: every interleaving (within the reported preemption bound; -1 = unbounded) of N goroutines calling WithContext/AliasContext and logging, scheduling points at the split read and write of the shared id counter (R4) and at any lock (R1); sequential sweep of 10 log functions x 10 context kinds (incl. aliases onto a parent carrying another id) x 7 messages. A state = distinct observable outcome (relative ids per goroutine); transition = scheduling step or logging call.")
-	c.Assume("accesses other than the instrumented counter/lock operations are judged by the separate free-running race-detector pass", "log lines are observed through a writer installed with logger.Switch", "the Info level is discarded by design: zero writes allowed for I/If")
+	c.Rule("E1: every interleaving (within the reported preemption bound; -1 = unbounded) of N goroutines calling WithContext/AliasContext and logging, scheduling points at the split read and write of the shared id counter (R4) and at any lock (R1); sequential sweep of 10 log functions x 10 context kinds (incl. aliases onto a parent carrying another id) x 7 messages. A state = distinct observable outcome (relative ids per goroutine); transition = scheduling step or logging call." + historyRule)
+	c.Assume("accesses other than the instrumented counter/lock operations are judged by the separate free-running race-detector pass", "log lines are observed through a writer installed with logger.Switch", "the Info level is discarded by design: zero writes allowed for I/If",
+		"history family: after logger.Close() and before the next Switch there is no current writer and lines are dropped (Close: 'discard any log util switch to fresh writer'); the value returned by Switch, which writer Close() closes, and the colour escapes sent to os.Stdout are not judged")
 	if c.Mode() == "race" {
 		racePass(c, w)
 		return
@@ -409,6 +410,8 @@ func run(c *hl.Ctx) {
 		}
 	}
 	c.Info("completed_preemption_bound_per_scenario", minCompleted)
+	// history family (history.go): sequential Switch/Close/log histories against the writer-state model
+	historyFamily(c, closerWriter{w})
 }
 
 func racePass(c *hl.Ctx, w *recWriter) {
@@ -440,6 +443,9 @@ func replay(c *hl.Ctx, raw json.RawMessage) {
 	os.Stdout = devnull
 	w := &recWriter{}
 	logger.Switch(closerWriter{w})
+	if replayHistory(c, raw, closerWriter{w}) {
+		return
+	}
 	var rc mc.ReplayCase
 	if err := json.Unmarshal(raw, &rc); err != nil || rc.Scenario == "" {
 		sequential(c, w)
